@@ -44,15 +44,21 @@ KPOOLS = {
     "kint": [["i", 0], ["i", 1], ["i", 2]],
     "keq": [["i", 1], ["b", True], ["f", (1.0).hex()], ["i", 0], ["b", False]],
     "kdate": [["d", 738000], ["d", 738001]],
+    # unequal keys with equal hash() (hash(-1) == hash(-2); hash(2**61-1) == hash(0)): anything that stands in
+    # for the keys by a hash or a fingerprint confuses them
+    "khash": [["i", -1], ["i", -2], ["i", 0], ["i", 2 ** 61 - 1]],
 }
 DPOOLS = {
     "int": [["i", 5], ["i", 1], ["i", -3], ["i", 2], ["b", True], ["i", 0], ["i", 7]],
     "float": [["f", (0.5).hex()], ["f", (1.5).hex()], ["f", (2.5).hex()], ["f", (-1.25).hex()], ["i", 2]],
     "str": [["s", "x"], ["s", "y"], ["s", "xy"]],
+    # large values with a small spread (integral floats: sums and means stay exact in the textbook two-pass
+    # formula, while a one-pass sum-of-squares formula cancels catastrophically)
+    "bigfloat": [["f", (1e8).hex()], ["f", (1e8 + 2).hex()], ["f", (1e8 + 4).hex()], ["f", (1e8 + 7).hex()]],
 }
-SUITABLE = {"sum": ("int",), "mean": ("int", "float"), "stdev": ("int", "float"),
-            "min": ("int", "float", "str", "kstr", "kint", "kdate"), "max": ("int", "float", "str", "kstr", "kint", "kdate"),
-            "count": ("int", "float", "str", "kstr", "kint", "keq", "kdate")}
+SUITABLE = {"sum": ("int",), "mean": ("int", "float", "bigfloat"), "stdev": ("int", "float", "bigfloat"),
+            "min": ("int", "float", "str", "kstr", "kint", "kdate", "khash"), "max": ("int", "float", "str", "kstr", "kint", "kdate", "khash"),
+            "count": ("int", "float", "str", "kstr", "kint", "keq", "kdate", "khash")}
 
 
 # ------------------------------------------------------------------ generators
@@ -79,14 +85,15 @@ def random_call(rng, op, nmax=10):
     ncols = rng.randint(2, 5)
     kinds, cols = [], []
     for i in range(ncols):
-        k = rng.choice(["kstr", "kint", "keq", "int", "int", "float", "str"]) if i else rng.choice(["kstr", "kint", "keq"])
+        k = (rng.choice(["kstr", "kint", "keq", "khash", "int", "int", "float", "bigfloat", "str"]) if i
+             else rng.choice(["kstr", "kint", "keq", "khash"]))
         pool = KPOOLS.get(k) or DPOOLS[k]
         if k in KPOOLS:
             pool = pool[:rng.randint(2, len(pool))]
         kinds.append(k)
         cols.append(rand_col(rng, n, pool, rng.choice([0, .15, .3, .6])))
     nk = rng.choice([1, 1, 1, 2, 2, 3])
-    over = [_pick_spec(rng, kinds, cols, n, ("kstr", "kint", "keq", "kdate") if rng.random() < 0.85 else ("int", "str"))
+    over = [_pick_spec(rng, kinds, cols, n, ("kstr", "kint", "keq", "kdate", "khash") if rng.random() < 0.85 else ("int", "str"))
             for _ in range(nk)]
     args = {}
     for kind in KINDS:
@@ -112,6 +119,22 @@ def random_call(rng, op, nmax=10):
               for i in range(rng.choice([1, 1, 2]))]
     return {"op": op, "names": NAMES[:ncols], "cols": cols, "over": over,
             "over_bare": nk == 1 and rng.random() < 0.5, "args": args, "apply": ap}
+
+
+def with_history(rng, cases):
+    """the same calls, made on a table object that was grouped once before while it held its rows in another
+    order and was then rewritten in place (see _run): catches anything remembered across calls"""
+    out = []
+    for c in cases:
+        n = len(c["cols"][0]) if c.get("cols") else 0
+        if n < 2:
+            continue
+        perm = list(range(n))
+        if rng.random() < 0.8:
+            while perm == list(range(n)):
+                rng.shuffle(perm)
+        out.append(dict(c, prior_perm=perm))
+    return out
 
 
 def _call(op, cols, over, args=None, apply=None, over_bare=False):
@@ -218,8 +241,45 @@ def _run(case, method):
     """one call of t.<method>(...) on a freshly built table; returns the observation"""
     from serif import Table, Vector
     names = case["names"]
-    t = Table({nm: [V.dec(x) for x in col] for nm, col in zip(names, case["cols"])})
+    perm = case.get("prior_perm")
+    nrows = len(case["cols"][0]) if case["cols"] else 0
+    if perm is not None and sorted(perm) == list(range(nrows)) and nrows:
+        # HISTORY: the same table object first holds the rows in another order and is grouped once (result
+        # discarded); then every cell is written IN PLACE through the live column objects until the table
+        # holds case["cols"]; only then the observed call is made.  aggregate/window are functions of the
+        # table's CURRENT contents: anything remembered from the earlier call must not show.
+        t = Table({nm: [V.dec(col[p]) for p in perm] for nm, col in zip(names, case["cols"])})
+        pre = _enc_cols(t)
+        try:
+            _call_on(t, names, pre, case, method, [])
+        except Exception:                                    # noqa: BLE001
+            pass
+        try:
+            for j, col in enumerate(case["cols"]):
+                for i, tag in enumerate(col):
+                    if perm[i] != i:
+                        t._underlying[j][i] = V.dec(tag)
+        except Exception:                                    # noqa: BLE001 - fall back to a fresh table
+            t = Table({nm: [V.dec(x) for x in col] for nm, col in zip(names, case["cols"])})
+        if _enc_cols(t) != [list(c) for c in case["cols"]]:
+            t = Table({nm: [V.dec(x) for x in col] for nm, col in zip(names, case["cols"])})
+    else:
+        t = Table({nm: [V.dec(x) for x in col] for nm, col in zip(names, case["cols"])})
     pre = _enc_cols(t)
+    log = []
+    obs = {"pre": pre}
+    try:
+        r, res = _call_on(t, names, pre, case, method, log, obs)
+    except Exception as e:
+        obs.update({"exc": err_name(e), "msg": f"{type(e).__name__}: {e}"[:160], "log": log})
+        return obs
+    obs.update({"out": _enc_cols(r), "names": list(r.column_names()), "log": log, "post": _enc_cols(t)})
+    return obs
+
+
+def _call_on(t, names, pre, case, method, log, obs=None):
+    """build the arguments against table t (its present contents are `pre`) and call t.<method>"""
+    from serif import Vector
 
     def build(spec):
         """-> (python argument, snapshot of the resolved data or None)"""
@@ -252,7 +312,6 @@ def _run(case, method):
             built = [build(s) for s in a["list"]]
             kwargs[kind + "_over"] = [b[0] for b in built]
             res["args"][kind] = [b[1] for b in built]
-    log = []
     if case["apply"] is not None:
         d = {}
         for idx, (name, spec, fid) in enumerate(case["apply"]):
@@ -261,14 +320,9 @@ def _run(case, method):
             res["apply"].append([name, snap, fid])
         kwargs["apply"] = d
     ov = over[0] if (case.get("over_bare") and len(over) == 1) else over
-    obs = {"pre": pre, "res": res}
-    try:
-        r = getattr(t, method)(over=ov, **kwargs)
-    except Exception as e:
-        obs.update({"exc": err_name(e), "msg": f"{type(e).__name__}: {e}"[:160], "log": log})
-        return obs
-    obs.update({"out": _enc_cols(r), "names": list(r.column_names()), "log": log, "post": _enc_cols(t)})
-    return obs
+    if obs is not None:
+        obs["res"] = res
+    return getattr(t, method)(over=ov, **kwargs), res
 
 
 def observe(case):
